@@ -152,7 +152,7 @@ def oracles(ctx: Ctx):
             out = dec(run_impl(lambda a: e2e.impl_roundtrip_env(a, symbolic=False), arg))
             why = pred_env(arg, out)
         if why:
-            ctx.violation("failing-input", "oracle:client.roundtrip.real", {"unit": "client.roundtrip.real", "kind": kind, "input": enc(arg)[-1500:], "why": why},
+            ctx.violation("failing-input", "oracle:client.roundtrip.real", {"unit": "client.roundtrip.real", "kind": kind, "input": enc(arg), "why": why},
                           key="roundtrip.real:" + why[:40])
             break
     # "at whatever wall-clock time the protect call happens": a clock that ADVANCES on every read and crosses an L0 / L1 / L2
@@ -173,6 +173,12 @@ def oracles(ctx: Ctx):
 
 
 TICK_DATA = b"protected while the clock ticks"
+
+
+def _pred_ticking(arg, out):
+    if isinstance(out, Err) or out is None or bytes(out) != TICK_DATA:
+        return f"unprotect gives {out if isinstance(out, Err) else 'different bytes'} instead of the plaintext"
+    return None
 
 
 def impl_roundtrip_ticking(arg):
@@ -215,6 +221,9 @@ def ticking_cases(ctx: Ctx):
                     k += 1
                     cases.append([ns_of_filetime(kk * div - before), step, k % 2])
     return cases
+
+
+ORACLE_REPLAY = {"client.roundtrip.ticking": (lambda a: impl_roundtrip_ticking(a), _pred_ticking)}
 
 
 def search(ctx: Ctx):
